@@ -66,7 +66,7 @@ let () =
           if big then begin
             (* exact elimination of larger systems over Coq's binary rationals is slow: assembly only *)
             for sys = 0 to nsys - 1 do
-              let rows = q_assemble !ty (nat_of_int !mr) (nat_of_int !mc) !mvs pv_ (nat_of_int sys) in
+              let rows : (qi list * qi) list = Obj.magic (q_assemble !ty (nat_of_int !mr) (nat_of_int !mc) !mvs (Obj.magic pv_) (nat_of_int sys)) in
               Printf.printf "SYS %d rows %d\n" sys (List.length rows);
               List.iter (fun r -> print_string ("R " ^ prow r ^ "\n")) rows
             done;
